@@ -12,12 +12,14 @@ SHARD_TIMEOUT = L.SHARD_TIMEOUT
 FAMILY = ('b', 'b_cond', 'bl', 'bx', 'blx_reg', 'bxj', 'cbz', 'tbb')
 RULE = ('case = (word from a branch row with offsets from corners/random - every single-bit offset and both extremes '
         'included by the field generator - or, in the enumeration shards, EVERY imm8 of B T1, imm11 of B T2 and i:imm5 of '
-        'CBZ/CBNZ), instruction placed at 0x10000, 0x0, 0x4, 0xFFFFFFF0, 0xFFFFFFFC (increment and targets wrap), '
+        'CBZ/CBNZ), instruction placed at 0x10000, 0x0, 0x4, 0xFFFFFFF0, 0xFFFFFFFC (increment and targets wrap) and, in Thumb '
+        'state, at halfword-but-not-word aligned addresses (Align(PC,4) of BLX / ADR-like forms), '
         'registers holding interworking targets (bit0 set/clear, bit1 set), arch 4..7; PC, LR, T bit and everything else '
         'compared; PC alignment invariant (Thumb: bit0 = 0, ARM: bits1:0 = 0) after every step; non-trivial = branch '
         'taken; distinct = (row, configuration, code address class)')
 ASSUMPTIONS = ['vf/ref/sem_sys.py transcribes the branch pseudocode; BXJ with Jazelle enabled / trapped is not judged']
-CODES = [0x10000, 0x10000, 0x0, 0x4, 0xFFFFFFF0, 0xFFFFFFFC, 0xFFFFF800, 0x10FF0]
+CODES = [0x10000, 0x10000, 0x0, 0x4, 0xFFFFFFF0, 0xFFFFFFFC, 0xFFFFF800, 0x10FF0, 0x10002, 0x10006, 0x2, 0x6, 0xFFFFFFF2, 0xFFFFFFFA,
+         0xFFFFFFFE]     # (ARM-state cases use the word-aligned address below)
 TARGETS = [0x10000, 0x10001, 0x10002, 0x10003, 0x0, 0x1, 0xFFFFFFFF, 0xFFFFFFFE, 0xFFFFFFFC, 0x7FFC, 0x7FFD, 0x11001, 0x4, 0x80000001]
 
 
